@@ -22,6 +22,7 @@ struct eng_profile {
         unsigned max_lines;
         unsigned p_lookup;          /* per-mille chance per service step that the harness calls the lookup helpers of the public API */
         unsigned p_cut;             /* % of histories whose stimulus phase is cut at a random step (progress measured from mid-flight) */
+        unsigned p_read_trigger;    /* per-mille chance per refused read that the read callback raises an event */
         unsigned p_toggle;          /* per-mille chance per service step that the harness flips the disable flag of a command or a group */
         unsigned p_empty_name;      /* % of commands whose name is the empty string (sanitizer workload only) */
         unsigned p_nul;             /* % of lines with a NUL byte in or after them */
